@@ -265,7 +265,15 @@ impl FakeTower {
                 if how == "not-extending" {
                     // a correctly signed receipt that does not extend the previous subscription
                     let user = user.unwrap();
-                    let (slots, expiry) = if field == "expiry" { (st.slots, st.expiry - 1000) } else { (st.slots - 100, st.expiry) };
+                    let (slots, expiry) = match field.as_str() {
+                        "expiry" => (st.slots, st.expiry - 1000),
+                        // more slots, but an expiry that goes backwards
+                        // (`valid` has already moved the tower's terms one step up: st = previous + (100, 1000))
+                        "expiry-down-slots-up" => (st.slots + 100, st.expiry - 1500),
+                        // a later expiry, but fewer slots
+                        "slots-down-expiry-up" => (st.slots - 150, st.expiry + 1000),
+                        _ => (st.slots - 100, st.expiry),
+                    };
                     st.slots -= 100;
                     st.expiry -= 1000;
                     let mut r = RegistrationReceipt::new(user, slots, 10, expiry);
@@ -835,7 +843,7 @@ async fn scenario_c14(seed: u64, id: u64, base: &Path, r: &mut PropReport) {
         let tower = FakeTower::start(&mut rng).await;
         let tid = hex::encode(tower.id.to_vec());
         let on_register = rng.chance(2, 5);
-        let beh = match rng.below(13) {
+        let beh = match rng.below(14) {
             0 => Beh::NonJson,
             1 => Beh::WrongShape,
             2 => Beh::WrongSig,
@@ -844,7 +852,7 @@ async fn scenario_c14(seed: u64, id: u64, base: &Path, r: &mut PropReport) {
             5 => Beh::Huge,
             6 => Beh::ServerError,
             7 => Beh::Hangup,
-            8 if on_register => Beh::Mutated(rng.pick(&["expiry", "slots"]).to_string(), "not-extending".into()),
+            8 | 9 if on_register => Beh::Mutated(rng.pick(&["expiry", "slots", "expiry-down-slots-up", "expiry-down-slots-up", "slots-down-expiry-up"]).to_string(), "not-extending".into()),
             _ => Beh::Mutated(rng.pick(if on_register { &reg_fields } else { &add_fields }).to_string(), rng.pick(&hows).to_string()),
         };
         let bname = beh_name(&beh);
@@ -860,10 +868,24 @@ async fn scenario_c14(seed: u64, id: u64, base: &Path, r: &mut PropReport) {
             }
             let before = read_rows(&dir);
             let n_receipts_before = count_reg_receipts(&dir, &tid);
+            let terms = |v: Option<Value>| -> Option<(u64, u64)> {
+                let t = v?;
+                let t = t.get(&tid)?.clone();
+                Some((t.get("available_slots")?.as_u64()?, t.get("subscription_expiry")?.as_u64()?))
+            };
+            let terms_before = terms(plugin.call("listtowers", json!([]), 10).await.ok());
             tower.state.lock().unwrap().register.push_back(beh.clone());
             let res = plugin.call("registertower", reg_addr.clone(), 20).await;
             let n_receipts_after = count_reg_receipts(&dir, &tid);
+            let terms_after = terms(plugin.call("listtowers", json!([]), 10).await.ok());
             let _ = before;
+            // whatever the reply was: the subscription the client believes in either stays as it was or grows in
+            // both slots and expiry
+            if let (Some(b), Some(a)) = (terms_before, terms_after) {
+                if a != b && (a.0 <= b.0 || a.1 <= b.1) {
+                    r.violation(format!("C14:subscription-went-backwards:{}", bname.split(':').skip(1).collect::<Vec<_>>().join(":")), format!("{ctx}: the client's view of the subscription went from (slots {}, expiry {}) to (slots {}, expiry {})", b.0, b.1, a.0, a.1), replay.clone());
+                }
+            }
             // the mutated reply must not be recorded unless it still is a valid, extending, verifying receipt
             let harmless = matches!(&beh, Beh::Mutated(f, h) if (f == "user_id") || (f == "subscription_start" && false) || h == "odd" && false);
             if n_receipts_after > n_receipts_before && !harmless {
@@ -1032,6 +1054,20 @@ async fn stored_receipt_problem(dir: &Path, tid: &str, tower_id: &TowerId, plugi
     let mut rows = rows;
     rows.sort_by_key(|c| c[3].parse::<u64>().unwrap_or(0));
     let user = user_id_of(dir)?;
+    // every stored receipt must verify
+    for c in &rows {
+        let rc = RegistrationReceipt::with_signature(user, c[1].parse().ok()?, c[2].parse().ok()?, c[3].parse().ok()?, c[4].clone());
+        if !rc.verify(tower_id) {
+            return Some(format!("a registration receipt that does not verify under the tower id was recorded (slots {}, expiry {})", c[1], c[3]));
+        }
+    }
+    // ordered by expiry, the slots must grow too: a receipt with an earlier expiry and more slots (or the reverse)
+    // does not extend its neighbour
+    for w in rows.windows(2) {
+        if w[1][1].parse::<u64>().ok()? <= w[0][1].parse::<u64>().ok()? || w[1][3].parse::<u64>().ok()? <= w[0][3].parse::<u64>().ok()? {
+            return Some(format!("a registration that does not strictly extend the stored one was recorded ({:?} next to {:?})", (&w[1][1], &w[1][3]), (&w[0][1], &w[0][3])));
+        }
+    }
     let last = rows.last()?;
     let rc = RegistrationReceipt::with_signature(user, last[1].parse().ok()?, last[2].parse().ok()?, last[3].parse().ok()?, last[4].clone());
     if !rc.verify(tower_id) {
@@ -1213,8 +1249,16 @@ async fn scenario_c13(seed: u64, id: u64, base: &Path, r: &mut PropReport) {
     let gave_up = t0.elapsed().as_secs() > max_retry + 2;
     if gave_up && !restarted {
         // settled: the tower must be shown unreachable (or subscription error) with its data retained
-        if let Some((st, pend)) = tower_status(&mut plugin, &tid).await {
-            let want = if kind == 1 { ["subscription error", "unreachable"] } else { ["unreachable", "unreachable"] };
+        let want = if kind == 1 { ["subscription error", "unreachable"] } else { ["unreachable", "unreachable"] };
+        // the give-up instant is the product's wall-clock business (back-off in seconds): on a loaded machine it may
+        // come late, so the status is given a generous extra 12 s to settle before it is judged
+        let mut seen = tower_status(&mut plugin, &tid).await;
+        let t_wait = Instant::now();
+        while seen.as_ref().map_or(true, |s| !want.contains(&s.0.as_str())) && t_wait.elapsed() < Duration::from_secs(12) {
+            tokio::time::sleep(Duration::from_millis(500)).await;
+            seen = tower_status(&mut plugin, &tid).await;
+        }
+        if let Some((st, pend)) = seen {
             if !want.contains(&st.as_str()) || pend != revs.len() {
                 r.violation("C13:status-while-failing", format!("{ctx}: after the retry strategy gave up the tower is shown as {st} with {pend} pending appointments ({} were notified)", revs.len()), replay.clone());
             }
@@ -1307,6 +1351,35 @@ async fn scenario_c13(seed: u64, id: u64, base: &Path, r: &mut PropReport) {
         }
         r.count("recoveries_delivered", 1);
         r.max("max_delivery_ms_after_recovery", delivered_ms);
+        // ---- flap: the tower fails again right after the retrier has delivered (its bookkeeping for that tower is
+        // between "done" and "cleaned up"), one more revocation arrives, and the tower is back a moment later
+        if id % 2 == 0 && plugin.alive() {
+            tower.set_up(false);
+            let rev = revocation(&mut rng, next_n + 500);
+            let answered = plugin.revoke(&rev, HOOK_TIMEOUT).await.is_ok();
+            tokio::time::sleep(Duration::from_millis(250)).await;
+            tower.set_up(true);
+            if answered {
+                revs.push(rev);
+                let t_flap = Instant::now();
+                let mut ok2 = false;
+                let mut last2 = None;
+                while t_flap.elapsed() < bound {
+                    tokio::time::sleep(Duration::from_millis(400)).await;
+                    last2 = tower_status(&mut plugin, &tid).await;
+                    if last2.as_ref().map(|s| (s.0.as_str(), s.1)) == Some(("reachable", 0)) {
+                        ok2 = true;
+                        break;
+                    }
+                }
+                r.count("flaps_after_recovery_checked", 1);
+                if !ok2 {
+                    r.violation(format!("C13:not-delivered:flap-after-recovery"), format!("{ctx}: the tower went down again right after the retrier had delivered, one more revocation arrived, the tower came back 250 ms later; {}s later the tower is shown as {last2:?} ({} requests reached it since the flap); stderr {:?}", bound.as_secs(), tower.state.lock().unwrap().log.iter().filter(|l| l.t > t_flap).count(), plugin.panic_text()), replay.clone());
+                } else if let Some((sig, detail)) = check_records(&dir, &[tower.clone()], &revs, &ctx) {
+                    r.violation(sig.replace("C05:", "C13:after-flap:"), detail, replay.clone());
+                }
+            }
+        }
     }
     if let Some(o) = trace_overlaps(&plugin.trace) {
         r.violation("C13:overlapping-retry-loops", format!("{ctx}: {o}"), replay.clone());
